@@ -15,19 +15,21 @@ Fixpoint take_front (l : regions) (N : Z) : regions * regions :=
       else let '(a, rest) := take_front tl (N - rcount r) in (r :: a, rest)
   end.
 
-(* allocFromEnd on the reversed list: the last region used is split (its last N pages);
-   result: (allocated in ascending order, kept list in ascending order) *)
-Fixpoint take_back_rev (rl : regions) (N : Z) : regions * regions :=
-  match rl with
+(* allocFromEnd: regions are taken from the back; the first one used (seen from the front) is split
+   (its last pages). The source walks the list backwards and accumulates counts; the same result is
+   computed here from the front using the page count of the remaining suffix.
+   Result: (allocated, ascending; kept list, ascending) *)
+Fixpoint take_back (l : regions) (N : Z) : regions * regions :=
+  match l with
   | [] => ([], [])
   | r :: tl =>
-      if N <=? rcount r then
-        ([{| rid := rid r + (rcount r - N); rcount := N |}],
-         if rcount r - N =? 0 then tl else {| rid := rid r; rcount := rcount r - N |} :: tl)
-      else let '(a, rest) := take_back_rev tl (N - rcount r) in (a ++ [r], rest)
+      let c := count_pages tl in
+      if N <=? c then let '(a, k) := take_back tl N in (a, r :: k)
+      else
+        let m := N - c in   (* pages needed from the end of r *)
+        ({| rid := rid r + (rcount r - m); rcount := m |} :: tl,
+         if rcount r - m =? 0 then [] else [{| rid := rid r; rcount := rcount r - m |}])
   end.
-Definition take_back (l : regions) (N : Z) : regions * regions :=
-  let '(a, rest) := take_back_rev (rev l) N in (a, rev rest).
 
 (* freelist.AllocRegionsWith: nothing happens if n = 0 or n > avail *)
 Definition fl_alloc_regions (fromEnd : bool) (f : freelist) (n : Z) : regions * freelist :=
